@@ -195,3 +195,78 @@ func vhAliasCase() {
 	}
 	vAssert(len(fsys.writes) == 0 && len(fsys.deletes) == 0, "Open modified the directory")
 }
+
+// vhTwinFiles: C18, "each entity's alias is its explicit alias or else its
+// file's base name, in whatever sub-directory", for configuration files whose
+// text is byte-identical (members of a group that differ only in the file
+// name they rely on, or a copy of a file under another name): 2..3 such files
+// in different directories below one root, optionally a second database
+// opened later in the same process on a directory in which the same text
+// lives under other names. Every file is an entity of its own, named after
+// its file, and its artifact is written next to it.
+func vhTwinFiles() {
+	vClockFixed(1709640000)
+	t0 := time.Unix(1700000000, 0)
+	text := "version: 1\nissuer: root\nsubject: CN=member\nserialNumber: 7\n" // (a drawn serial would fork on its DER length)
+	layouts := [][]string{
+		{"users/one.yaml", "admins/two.yaml"},
+		{"one.yaml", "two.yml", "deep/er/three.json"},
+		{"a/m.yaml", "b/n.yaml"},
+	}
+	jsonText := "{\"version\": 1, \"issuer\": \"root\", \"subject\": \"CN=member\", \"serialNumber\": 7}"
+	check := func(paths []string) {
+		fsys := vNewFs()
+		fsys.put("root.yaml", []byte("version: 1\nsubject: CN=root\nserialNumber: 1\n"), t0)
+		for _, p := range paths {
+			body := text
+			if p[len(p)-5:] == ".json" {
+				body = jsonText
+			}
+			fsys.put(p, []byte(body), t0)
+		}
+		d := NewFilesystemDatabase(fsys)
+		err := d.Open()
+		vAssert(err == nil, "a valid forest of files with identical text was refused")
+		if err != nil {
+			return
+		}
+		vAssert(d.NumEntities() == len(paths)+1, "files with identical text are not one entity each")
+		for _, p := range paths {
+			base := vBase(p)
+			for k := len(base) - 1; k >= 0; k-- {
+				if base[k] == '.' {
+					base = base[:k]
+					break
+				}
+			}
+			c, gerr := d.GetConfig(base)
+			vAssert(gerr == nil && c != nil, "an entity without explicit alias is not known by its file's base name")
+		}
+		list, err := db.PlanBulkUpdate(d, vDefaultFlags)
+		vAssert(err == nil, "planning failed")
+		if err != nil {
+			return
+		}
+		_, err = db.BulkUpdate(d, list)
+		vAssert(err == nil, "the run failed")
+		for _, p := range paths {
+			stem := p
+			for k := len(stem) - 1; k >= 0; k-- {
+				if stem[k] == '.' {
+					stem = stem[:k]
+					break
+				}
+			}
+			_, ok := fsys.files[stem+".pem"]
+			vAssert(ok, "the artifact of an entity is not written next to its configuration")
+		}
+		vAssert(len(fsys.writes) == len(paths)+1, "the run wrote other files than one artifact per entity")
+	}
+	l := vChoose("layout", len(layouts))
+	check(layouts[l])
+	if vChoose("secondDatabase", 2) == 1 {
+		vReach("second-database")
+		check(layouts[(l+1)%len(layouts)])
+	}
+	vReach("checked")
+}
